@@ -56,6 +56,231 @@ _SERIAL_IC_LOOP = '''                b, a = coeffunc(Q, dT, wn[j])
                 if stype == "reldisp":
 '''
 
+def _multi(*edits):
+    """several (old, new) replacements in pyyeti/srs.py as one recipe: the old text is the contiguous span of the file that covers all of them (each must
+    occur exactly once), the new text is that span with the replacements made.  Read from the pinned tree when the module is imported."""
+    import os
+    from . import core
+    try:
+        src = open(os.path.join(core.REPO, S)).read()
+    except OSError:
+        return "<pyyeti/srs.py not readable>", ""
+    pos = []
+    for o, _n in edits:
+        if src.count(o) != 1:
+            return "<multi-edit recipe: text occurs %d times: %s>" % (src.count(o), o[:40]), ""
+        pos.append((src.index(o), src.index(o) + len(o)))
+    a, b = min(p[0] for p in pos), max(p[1] for p in pos)
+    span = src[a:b]
+    new = span
+    for o, n in edits:
+        new = new.replace(o, n)
+    return span, new
+
+
+_GETRESP_BLOCK = '''    if getresp:
+        resp = {}
+        resp["sr"] = sr
+        # hist is:  len(time) x nsignals x len(freq)
+        if ptr == 2:
+            # residual
+            resp["t"] = np.arange(M, N) / sr
+            if parallel == "yes":
+                HIST = (createSharedArray((N - M, H, LF)), (N - M, H, LF))
+            else:
+                resp["hist"] = np.empty((N - M, H, LF))
+        else:
+            resp["t"] = np.arange(N) / sr
+            if parallel == "yes":
+                HIST = (createSharedArray((N, H, LF)), (N, H, LF))
+            else:
+                resp["hist"] = np.empty((N, H, LF))
+'''
+
+_START_RESP = '''def _start_resp(sr, M, N, H, LF, residual, shared):
+    out = {}
+    out["sr"] = sr
+    first = M if residual else 0
+    out["t"] = np.arange(first, N) / sr
+    dims = (N - first, H, LF)
+    if shared:
+        return out, (createSharedArray(dims), dims)
+    out["hist"] = np.empty(dims)
+    return out, None
+
+
+def vrs('''
+
+_GETRESP_HELPER = '''    if getresp:
+        resp, shared_hist = _start_resp(sr, M, N, H, LF, ptr == 2, parallel == "yes")
+        if shared_hist is not None:
+            HIST = shared_hist
+'''
+
+_GETRESP_LITERAL = '''    if getresp:
+        first = (0, 0, M)[ptr]
+        if parallel == "yes":
+            resp = {"sr": sr, "t": np.arange(first, N) / sr}
+            HIST = (createSharedArray((N - first, H, LF)), (N - first, H, LF))
+        else:
+            resp = dict(sr=sr, t=np.arange(first, N) / sr, hist=np.empty((N - first, H, LF)))
+'''
+
+_TAIL_INCREMENTAL = '''    if eqsine:
+        SRSmax /= Q
+    result = (SRSmax,)
+    if getresp:
+        if eqsine:
+            resp["hist"] /= Q
+        result += (resp,)
+    return result if len(result) > 1 else result[0]
+'''
+
+_TAIL_CONCAT = '''    if eqsine:
+        SRSmax /= Q
+    extra = ()
+    if getresp:
+        if eqsine:
+            resp["hist"] /= Q
+        extra = (resp,)
+    if extra:
+        return (SRSmax,) + extra
+    return SRSmax
+'''
+
+_NOIC_LOOP = '''            dT = 1 / sr
+            for j in range(LF):
+                b, a = coeffunc(Q, dT, wn[j])
+                resphist = signal.lfilter(b, a, sig, axis=0)
+                SRSmax[j] = methfunc(resphist[S:])
+                if getresp:
+                    resp["hist"][:, :, j] = resphist[S:]
+'''
+
+_NOIC_WHILE = '''            dT = 1 / sr
+            j = 0
+            while j != LF:
+                b, a = coeffunc(Q, dT, wn[j])
+                resphist = signal.lfilter(b, a, sig, axis=0)
+                SRSmax[j] = methfunc(resphist[S:])
+                if getresp:
+                    resp["hist"][:, :, j] = resphist[S:]
+                j = j + 1
+'''
+
+_IC_LOOP_HEAD = '''            for j in range(LF):
+                b, a = coeffunc(Q, dT, wn[j])
+                resphist = signal.lfilter(b, a, sig, axis=0)
+                if stype == "reldisp":
+                    resphist += icvals / wn[j] ** 2
+                elif stype == "pvelo":
+                    resphist += icvals / wn[j]
+'''
+
+_IC_LOOP_ZIP = '''            for j, wnj in zip(range(LF), wn):
+                b, a = coeffunc(Q, dT, wnj)
+                resphist = signal.lfilter(b, a, sig, axis=0)
+                if stype == "reldisp":
+                    resphist += icvals / wnj ** 2
+                elif stype == "pvelo":
+                    resphist += icvals / wn[j]
+'''
+
+_LOOKUP = '''def _lookup(table, key, what):
+    try:
+        return table[key]
+    except KeyError:
+        raise ValueError("invalid {} option: {!r}".format(what, key)) from None
+
+
+def _process_inputs('''
+
+_SOS = '''def _sos(b0, b1, b2, C, E2):
+    num = np.empty(3)
+    num[0] = b0
+    num[1] = b1
+    num[2] = b2
+    den = np.empty(3)
+    den[0], den[1], den[2] = 1.0, -2 * C, E2
+    return num, den
+
+
+def absacce(Q, dT, wn):'''
+
+_ROLL_TABLE = '''    roll = {
+        "fft": fftroll,
+        "lanczos": lanroll,
+        "prefilter": preroll,
+        "linear": linroll,
+        "none": None,
+    }
+'''
+
+_VRS_TAIL = '''        resp = {}
+        resp["f"] = freq
+        resp["psd"] = psd_vrs
+        if PSD.ndim == 1:
+            z_vrs = z_vrs.ravel()
+        return z_vrs, z_miles, resp
+
+    for i, fn in enumerate(Fn):
+        p = freq / fn
+        p2z2 = (2 * zeta * p) ** 2
+        t = ((1 + p2z2) / ((1 - p**2) ** 2 + p2z2) * df) * psdfull.T
+        z_vrs[i] = np.sqrt(np.sum(t, axis=1))
+
+    if PSD.ndim == 1:
+        z_vrs = z_vrs.ravel()
+    if getmiles:
+        return z_vrs, z_miles
+    return z_vrs
+'''
+
+_VRS_TAIL_INCREMENTAL = '''    else:
+        i = 0
+        while i < len(Fn):
+            p = freq / Fn[i]
+            p2z2 = (2 * zeta * p) ** 2
+            t = ((1 + p2z2) / ((1 - p**2) ** 2 + p2z2) * df) * psdfull.T
+            z_vrs[i] = np.sqrt(np.sum(t, axis=1))
+            i += 1
+
+    if PSD.ndim == 1:
+        z_vrs = z_vrs.ravel()
+    out = (z_vrs,)
+    if getmiles or getresp:
+        out += (z_miles,)
+    if getresp:
+        out += (dict(f=freq, psd=psd_vrs),)
+    return out if len(out) > 1 else out[0]
+'''
+
+_HELPER_RESP = _multi((_GETRESP_BLOCK, _GETRESP_HELPER), ("def vrs(", _START_RESP))
+_HELPER_RESP_SHORT_T = (_HELPER_RESP[0], _HELPER_RESP[1].replace("np.arange(first, N) / sr", "np.arange(first, N - 1) / sr"))
+_HELPER_RESP_DIMS = (_HELPER_RESP[0], _HELPER_RESP[1].replace("dims = (N - first, H, LF)", "dims = (N, H, LF)"))
+_LOOPS = _multi((_NOIC_LOOP, _NOIC_WHILE), (_IC_LOOP_HEAD, _IC_LOOP_ZIP))
+_LOOPS_SWAPPED = (_LOOPS[0], _LOOPS[1].replace("while j != LF:\n                b, a = coeffunc(Q, dT, wn[j])\n                resphist = signal.lfilter(b, a, sig",
+                                                "while j != LF:\n                b, a = coeffunc(Q, dT, wn[j])\n                resphist = signal.lfilter(a, b, sig"))
+_LOOPS_START = (_LOOPS[0], _LOOPS[1].replace("                j = j + 1\n", "                j = j + 1\n").replace(
+    "while j != LF:\n                b, a = coeffunc(Q, dT, wn[j])\n                resphist = signal.lfilter(b, a, sig, axis=0)\n                SRSmax[j] = methfunc(resphist[S:])",
+    "while j != LF:\n                b, a = coeffunc(Q, dT, wn[j])\n                resphist = signal.lfilter(b, a, sig, axis=0)\n                SRSmax[j] = methfunc(resphist[M:])"))
+_TABLES = _multi(("    S = M if ptr == 2 else 0\n", "    S = {0: 0, 1: 0, 2: M}[ptr]\n"),
+                 ('    ptr = {"primary": 0, "total": 1, "residual": 2}\n', "    ptr = _TIME_CODES\n"),
+                 ("def _process_inputs(", "_TIME_CODES = dict(primary=0, total=1, residual=2)\n\n\ndef _process_inputs("),
+                 (_ROLL_TABLE, '    roll = dict(zip(("none", "linear", "lanczos", "fft", "prefilter"), (None, linroll, lanroll, fftroll, preroll)))\n'),
+                 ("            func = _dosrs if getresp else _dosrs_nohist\n", "            func = {True: _dosrs, False: _dosrs_nohist}[bool(getresp)]\n"),
+                 ("            func = _dosrs_ic if getresp else _dosrs_nohist_ic\n", "            func = [_dosrs_nohist_ic, _dosrs_ic][1 if getresp else 0]\n"))
+_TABLES_S = (_TABLES[0], _TABLES[1].replace("{0: 0, 1: 0, 2: M}[ptr]", "{0: 0, 1: M, 2: M}[ptr]"))
+_TABLES_CODES = (_TABLES[0], _TABLES[1].replace("dict(primary=0, total=1, residual=2)", "dict(primary=0, total=2, residual=1)"))
+_TRY_LOOKUP = _multi(("def _process_inputs(", _LOOKUP), ("    coeffunc = coefs[stype]\n", '    coeffunc = _lookup(coefs, stype, "stype")\n'),
+                     ("        methfunc = meth[peak]\n", '        methfunc = _lookup(meth, peak, "peak")\n'),
+                     ("        rollfunc = roll[rolloff]\n", '        rollfunc = _lookup(roll, rolloff, "rolloff")\n'),
+                     ("    ptr = ptr[time]\n", '    ptr = _lookup(ptr, time, "time")\n'))
+_ELEMENT_STORES = _multi(("def absacce(Q, dT, wn):", _SOS),
+                         ("        b = np.array([beta0, beta1, beta2])\n    a = np.array([1, -2 * C, E2])\n    return b, a\n\n\ndef relacce",
+                          "        return _sos(beta0, beta1, beta2, C, E2)\n    a = np.array([1, -2 * C, E2])\n    return b, a\n\n\ndef relacce"))
+_ELEMENT_STORES_WRONG = (_ELEMENT_STORES[0], _ELEMENT_STORES[1].replace("    num[1] = b1\n    num[2] = b2\n", "    num[1] = b2\n    num[2] = b1\n"))
+
 RECIPES = [
     # ---- break: new obligations of the value-level rules
     ("C03", "break", ["C03-R4"], S, "            sig = np.vstack((sig, z - s1))", "            sig = np.vstack((sig, z + s1))", "appended cycle: sign of the steady-state offset"),
@@ -82,6 +307,17 @@ RECIPES = [
     ("C03", "break", ["C03-R6"], S, "        p = freq / fn\n        p2z2 = (2 * zeta * p) ** 2\n        t = ((1 + p2z2) / ((1 - p**2) ** 2 + p2z2) * df) * psdfull.T",
      "        p = fn / freq\n        p2z2 = (2 * zeta * p) ** 2\n        t = ((1 + p2z2) / ((1 - p**2) ** 2 + p2z2) * df) * psdfull.T", "frequency ratio inverted in the non-getresp loop"),
     ("C03", "break", ["C03-R8"], S, '        "rms": _rmsmeth,\n', '        "rms": _absmeth,\n', "peak table: rms -> abs"),
+    # ---- break: the same changes hidden behind the refactorings of the second hardening pass (helpers that build and return the dictionary / the arrays,
+    #      while / zip loops, module-level and integer-key tables)
+    ("C03", "break", ["C03-R4"], S) + _HELPER_RESP_SHORT_T + ("response dictionary built in a helper: time vector one sample short",),
+    ("C03", "break", ["C03-R4"], S) + _HELPER_RESP_DIMS + ("response dictionary built in a helper: residual history allocated for the total window",),
+    ("C03", "break", ["C03-R3"], S) + _LOOPS_SWAPPED + ("lfilter(a, b, ...) inside a counted while loop",),
+    ("C03", "break", ["C03-R4"], S) + _LOOPS_START + ("peak taken from row M inside a counted while loop",),
+    ("C03", "break", ["C03-R4"], S) + _TABLES_S + ("window start table: total starts at M",),
+    ("C03", "break", ["C03-R4"], S) + _TABLES_CODES + ("module-level time-code table: total and residual swapped",),
+    ("C03", "break", ["C03-R1"], S) + _ELEMENT_STORES_WRONG + ("coefficient array filled element by element in a helper: beta1 and beta2 swapped",),
+    ("C03", "break", ["C03-R7"], S, _TAIL, _TAIL_INCREMENTAL.replace('        if eqsine:\n            resp["hist"] /= Q\n', ""), "result tuple assembled incrementally: history not divided by Q"),
+    ("C03", "break", ["C03-R4"], S, _TAIL, _TAIL_CONCAT.replace("return (SRSmax,) + extra", "return extra + (SRSmax,)"), "result tuple concatenated in the wrong order"),
     # ---- neutral: refactorings the value-level rules must not notice
     ("C03", "neutral", [], S, _PAD_HEAD, _PAD_HEAD_MASK, "lowest non-zero frequency through a boolean mask"),
     ("C03", "neutral", [], S, "    S = M if ptr == 2 else 0\n", '    S = 0\n    if time == "residual":\n        S = M\n', "window start decided on the option string"),
@@ -92,4 +328,14 @@ RECIPES = [
     ("C03", "neutral", [], S, "        resphist += ICVALS_ / WN_[j] ** 2\n    elif stype == \"pvelo\":\n        resphist += ICVALS_ / WN_[j]\n    else:\n        # stype == 'pacce' or 'absacce'\n        resphist += ICVALS_\n    SRSmax_[j] = methfunc(resphist[S:])\n    HIST_",
      "        w = WN_[j]\n        resphist = resphist + ICVALS_ / (w * w)\n    elif stype in (\"pacce\", \"absacce\"):\n        resphist += ICVALS_\n    else:\n        resphist += ICVALS_ / WN_[j]\n    SRSmax_[j] = methfunc(resphist[S:])\n    HIST_",
      "worker add-back arms reordered, membership test, plain addition"),
+    # second hardening pass
+    ("C03", "neutral", [], S) + _HELPER_RESP + ("response dictionary built under another name in a helper that returns it (or the shared buffer)",),
+    ("C03", "neutral", [], S, _GETRESP_BLOCK, _GETRESP_LITERAL, "response dictionary as a display / dict(...) call, window start selected by tuple index"),
+    ("C03", "neutral", [], S, _TAIL, _TAIL_INCREMENTAL, "result tuple assembled incrementally (+=), returned whole or by index"),
+    ("C03", "neutral", [], S, _TAIL, _TAIL_CONCAT, "result tuple concatenated from displays"),
+    ("C03", "neutral", [], S) + _LOOPS + ("serial loops as a counted while loop and as a zip over (range, wn)",),
+    ("C03", "neutral", [], S) + _TABLES + ("module-level dict(...) table, integer- and bool-key tables, dict(zip(...)), list indexed by 0 / 1",),
+    ("C03", "neutral", [], S) + _TRY_LOOKUP + ("table look-ups through a helper with try / except KeyError",),
+    ("C03", "neutral", [], S) + _ELEMENT_STORES + ("coefficient arrays filled element by element in a helper that returns them",),
+    ("C03", "neutral", [], S, _VRS_TAIL, _VRS_TAIL_INCREMENTAL, "vrs: counted while loop, result tuple assembled incrementally, dict(...) response"),
 ]
